@@ -64,6 +64,23 @@ MultiDefs ==
     \cup [1..3 -> (IF Th THEN {M1, M2, M4, M5, M6, M8, M9} ELSE {M1, M2, M4, M5, M6})]
     \cup [1..4 -> (IF Th THEN {M1, M2, M5, M6, M8, M9} ELSE {M1, M2, M5, M6})]
 
+(* two (thorough: also three) predicates that interact: the same reference twice (ranges), the SAME
+   data offset read as a static word and as a dynamic slice (both orders), different references whose
+   values differ.  The answer must still be the AND of the per-predicate semantics.               *)
+PairPreds ==
+    { UintP(FALSE, "o4", 2, "i32"), UintP(FALSE, "o4", 4, "i32"), UintP(FALSE, "o4", 0, "i64"), UintP(FALSE, "o4", 3, "i32"),
+      EqP(FALSE, "o4", "W32"),
+      EqP(TRUE, "o4", "R1"), EqP(TRUE, "o4", "b64"), EqP(TRUE, "o4", "b0"), UintP(TRUE, "o4", 2, "iR1"),
+      UintP(TRUE, "o4", 4, "i1"), UintP(TRUE, "o4", 1, "iR1"),
+      UintP(FALSE, "o5", 2, "i32"), EqP(FALSE, "o5", "R1"), EqP(TRUE, "o5", "R1"), UintP(TRUE, "o5", 2, "i0"),
+      UintP(FALSE, "o1", 4, "i1"), UintP(FALSE, "o1", 0, "iU64"), EqP(FALSE, "o1", "W1") }
+PairCore ==       \* the flavours of offsets 4 and 5 only
+    { UintP(FALSE, "o4", 2, "i32"), UintP(FALSE, "o4", 4, "i64"), EqP(TRUE, "o4", "R1"), UintP(TRUE, "o4", 4, "i1"),
+      UintP(FALSE, "o5", 2, "i32"), EqP(TRUE, "o5", "R1") }
+PairDefs ==
+    ({<<p, q>> : p \in PairPreds, q \in PairPreds} \ {<<p, p>> : p \in PairPreds})
+    \cup (IF Th THEN [1..3 -> PairCore] ELSE {<<p, q, p>> : p \in PairCore, q \in PairCore})
+
 (* malformed shapes: only Validate / encode / decode / filter are exercised on them *)
 ShapeDefs ==
     { <<PD(FALSE, "o4", 6, <<>>, <<>>)>>,                        \* unknown operator
@@ -95,6 +112,7 @@ DefCases ==
     \cup {Case("def", "static", p, NoLog, NoMut) : p \in StaticDefs}
     \cup {Case("def", "dyn", p, NoLog, NoMut) : p \in DynDefs}
     \cup {Case("def", "multi", p, NoLog, NoMut) : p \in MultiDefs}
+    \cup {Case("def", "pair", p, NoLog, NoMut) : p \in PairDefs}
     \cup {Case("def", "shape", p, NoLog, NoMut) : p \in ShapeDefs}
     \cup {Case("def", "dec", p, NoLog, NoMut) : p \in DecBases}
 
@@ -142,11 +160,26 @@ MultiLogs ==
     \cup {LD(TRUE, <<"R1", "W1", "R2", "WFF">>, <<"W1", "W64", "W32", "R1">>, cut) : cut \in {1, 32}}
     \cup {LD(FALSE, <<"R1", "W1", "R2", "WFF">>, <<"W1", "W64", "W32", "R1">>, 0)}
 
+(* data layouts on which the static word and the dynamic slice at offsets 4 / 5 both resolve and differ *)
+PairData ==
+    { <<"W32", "W32", "R1">>,              \* word 4 = word 5 = 32; both slices = R1
+      <<"W64", "R1", "W32", "R1">>,        \* word 4 = 64, slice 4 = R1; word 5 = R1, slice 5 unresolvable
+      <<"W32", "W64", "R1", "R2">>,        \* slice 4 = R1 R2 (64 bytes); word 5 = 64
+      <<"W32", "Z">>,                      \* slice 4 empty
+      <<"W64", "W64", "W32", "Z">>,        \* both slices = 32 zero bytes
+      <<"Z", "W32", "W32">>,               \* word 4 = 0: slice 4 is empty (length word = word 4); slice 5 = 32 bytes (32)
+      <<"R1", "W32", "W32", "R1">>,        \* slice 4 unresolvable, word 4 = R1
+      <<>> }
+PairLogs ==
+    {LD(TRUE, t, w, 0) : t \in {<<>>, <<"R1", "W1">>, <<"R1", "WU64">>}, w \in PairData}
+    \cup {LD(TRUE, <<"R1", "W1">>, <<"W32", "W32", "R1">>, 1), LD(FALSE, <<"R1", "W1">>, <<"W32", "W32", "R1">>, 0)}
+
 LogsFor(fam, preds) ==
     CASE fam = "topic" -> TopicLogs(OffN(OffTok(preds[1].off)))
       [] fam = "static" -> LET o == OffTok(preds[1].off) IN StaticLogs(IF OffBig(o) THEN 0 ELSE OffN(o) - 4, OffBig(o) \/ OffN(o) > 64)
       [] fam = "dyn" -> DynLogs
       [] fam = "multi" -> MultiLogs
+      [] fam = "pair" -> PairLogs
       [] OTHER -> {}
 
 (* mutations of an encoding of length n *)
@@ -208,7 +241,7 @@ Next ==
     \/ /\ c.k = "root"
        /\ c' \in DefCases
     \/ /\ c.k = "def"
-       /\ c.fam \in {"topic", "static", "dyn", "multi"}
+       /\ c.fam \in {"topic", "static", "dyn", "multi", "pair"}
        /\ \E l \in LogsFor(c.fam, c.preds) : c' = Case("match", c.fam, c.preds, l, NoMut)
     \/ /\ c.k = "def"
        /\ c.fam = "dec"
